@@ -62,8 +62,8 @@ func cmdCheck(args []string) (code int) {
 		}
 	}()
 	abs, _ := filepath.Abs(*repo)
-	p := loadProgram(abs, "", nil)
 	r := newReport(*prop, *tier, seed)
+	p := loadProgram(abs, "", nil)
 	f(p, r)
 	return r.finish(*verif)
 }
